@@ -215,7 +215,10 @@ def run(rep, idx, tier):
 
     # ---- C08.6 read data broadcast -------------------------------------------------------------------
     ds = c.drivers_of(c.parse("intr.dat_r", env))
-    if not ds:
+    if not ds and c.driven_inside_cat(c.parse("intr.dat_r", env)):
+        rep.unk("C08.6", site, "intr.dat_r", "the initiators' read data lines are driven together through one concatenation; the rule "
+                "compares per-initiator assignments and does not take the concatenation apart (the parts' widths are not verified)")
+    elif not ds:
         rep.bad("C08.6", site, "intr.dat_r", "initiators never receive read data")
     else:
         check_dl(rep, "C08.6", c, "intr.dat_r == bus.dat_r (broadcast)", ds, "0", [("1", "self.bus.dat_r")], env)
